@@ -9,10 +9,14 @@ GENERATED = []
 SOURCES = ["src/allmydata/mutable/filenode.py", "src/allmydata/nodemaker.py", "src/allmydata/dirnode.py"]
 DESIGN_REF = "DESIGN.md §2 C13"
 TECHNIQUE = ("Lean 4 invariant proof over an event-system model of the Deferred-chain serializer (all schedules, any length); "
-             "differential correspondence of scripted schedules against MutableFileNode._do_serialized and NodeMaker; "
-             "monitor on real concurrent whole-file operations and directory edits on the in-process grid")
+             "differential correspondence of scripted schedules (requests, completions, colliding attempts) against "
+             "MutableFileNode._do_serialized with the real MutableFileVersion._modify_and_retry as the callable, and against NodeMaker; "
+             "monitor on real concurrent whole-file operations and directory edits on the in-process grid, including collisions "
+             "with a second client that force modify() round its retry loop")
 LEVEL_TEXT = ("Proved for every event schedule of the model: operations start strictly after every earlier-requested operation "
-              "produced its result, a failure never blocks later operations, serialized read-modify-write edits are never lost, "
+              "produced its result -- an operation being all of its attempts: no further attempt of an operation begins after its "
+              "result or after a later operation started --, a failure never blocks later operations, serialized read-modify-write "
+              "edits are never lost, "
               "and a mutable cap maps to one node object. The model is tied to the code by replaying seeded schedules on the real "
               "_do_serialized / create_from_cap and comparing event logs. Partial: Twisted's Deferred and foolscap's eventual queue "
               "are modelled, not verified; WeakValueDictionary collection timing is not modelled.")
@@ -21,7 +25,12 @@ LEVEL_NOTE = ("Lean kernel + standard axioms; hand-written model of the callback
 RULE = ("(a) seeded schedules of request/finish/turn events (≤40 events) on a real MutableFileNode._do_serialized with instrumented "
         "callables, log compared with the driver after the whole schedule; (b) seeded create_from_cap call sequences on a real NodeMaker; "
         "(c) batches of real overwrite/modify/download operations and of directory edits issued concurrently on the grid under seeded "
-        "delivery orders. A case is one schedule/batch; distinct = distinct schedule text; non-trivial = at least two requests overlap "
+        "delivery orders; (d) two clients: client A requests 2-4 operations (file modify / failing modify / download; directory "
+        "set_uri / delete / list) back to back on one node, the share writes of one of them are held in the scheduler while client B "
+        "completes a competing write, then released (UncoordinatedWriteError, default BackoffAgent on the virtual clock), policies "
+        "random/fifo/lifo: modifier invocations, map updates, retrieves, publishes, inner and caller-visible completions are "
+        "recorded; the shares on disk at the moment an operation reports success are read back by a fresh client. "
+        "A case is one schedule/batch; distinct = distinct schedule text; non-trivial = at least two requests overlap "
         "(a request arrives while another operation is in progress).")
 TRUSTED = ["lean/Tahoe/Mutable/Serializer.lean is a hand model of _do_serialized on a model of Twisted's callback chain",
            "harness/grid.py (virtual clock, seeded delivery) when driving real operations"]
@@ -47,25 +56,45 @@ def gen_schedule(rng, n):
         elif r < 0.8 and pending:
             # only the operation in progress can finish: the first pending one that has started.
             i = pending[0]
-            ops.append("f:%d:%s" % (i, rng.choice("oof")))
-            pending.pop(0)
+            x = rng.random()
+            if x < 0.3:
+                ops.append("r:%d" % i)          # its current attempt collides; the next attempt begins
+            elif x < 0.38:
+                ops.append("u:%d" % i)          # its current attempt collides and the backoffer gives up
+                pending.pop(0)
+            else:
+                ops.append("f:%d:%s" % (i, rng.choice("oof")))
+                pending.pop(0)
         else:
             ops.append("t")
     return ops
 
 
 def run_schedule_impl(ops):
-    """Replay on the real _do_serialized; returns the same text as the driver."""
+    """Replay on the real _do_serialized; returns the same text as the driver.  An asynchronous request's
+    callable is the real MutableFileVersion._modify_and_retry (retry loop of modify(), hence of every
+    directory edit) on a version object whose map update and single attempt (`_modify_once`) are
+    scripted: `f:i:o|f` ends the current attempt of op i with success / another error, `r:i` with
+    UncoordinatedWriteError followed by a backoff that lets it try again, `u:i` with
+    UncoordinatedWriteError and a backoffer that gives up.  S = callable invoked, R = a further attempt
+    begins, F = the Deferred the callable returned fires (observed), D = the caller's Deferred fires."""
     import grid
     from twisted.internet import defer
     from twisted.python.failure import Failure
-    from allmydata.mutable.filenode import MutableFileNode
+    from allmydata.mutable.filenode import MutableFileNode, MutableFileVersion
+    from allmydata.mutable.common import UncoordinatedWriteError
+
+    class _Map:
+        def best_recoverable_version(self):
+            return ("verinfo",)
+
     with grid.Runtime(seed=0) as rt:
         node = MutableFileNode(None, None, {"k": 3, "n": 10}, None)
         log = []
         inner = {}
         started = set()
         finished = set()
+        giveup = {}
         content = []
         snap = {}
         nreq = [0]
@@ -73,6 +102,15 @@ def run_schedule_impl(ops):
         def request(kind):
             i = nreq[0]
             nreq[0] += 1
+
+            def finished_cb(res):
+                finished.add(i)
+                if isinstance(res, Failure):
+                    log.append("F%df" % i)
+                else:
+                    log.append("F%do" % i)
+                    content[:] = snap[i] + [i]
+                return res
 
             def cb():
                 log.append("S%d" % i)
@@ -87,8 +125,23 @@ def run_schedule_impl(ops):
                     log.append("F%df" % i)
                     finished.add(i)
                     raise RuntimeError("sync failure %d" % i)
-                d = defer.Deferred()
-                inner[i] = d
+                v = MutableFileVersion.__new__(MutableFileVersion)
+                v._servermap = _Map()
+                v._update_servermap = lambda mode=None, update_range=None: defer.succeed(None)
+
+                def modify_once(modifier, first_time):
+                    if not first_time:
+                        log.append("R%d" % i)
+                        snap[i] = list(content)
+                    d = defer.Deferred()
+                    inner[i] = d
+                    return d
+                v._modify_once = modify_once
+
+                def backoffer(n, f):
+                    return f if giveup.get(i) else defer.succeed(None)
+                d = v._modify_and_retry(lambda old, sm, first: old, backoffer, True)
+                d.addBoth(finished_cb)
                 return d
             d = node._do_serialized(cb)
             d.addBoth(lambda res: log.append("D%d%s" % (i, "f" if isinstance(res, Failure) else "o")))
@@ -99,16 +152,16 @@ def run_schedule_impl(ops):
             elif op == "t":
                 rt.clock.advance(0)
             else:
-                _, i, r = op.split(":")
-                i = int(i)
-                if i in inner and i not in finished:
-                    finished.add(i)
-                    log.append("F%d%s" % (i, r))
-                    if r == "o":
-                        content[:] = snap[i] + [i]
+                t = op.split(":")
+                i = int(t[1])
+                if i in inner and i not in finished and not inner[i].called:
+                    if t[0] == "f" and t[2] == "o":
                         inner[i].callback("ok")
-                    else:
+                    elif t[0] == "f":
                         inner[i].errback(RuntimeError("async failure %d" % i))
+                    else:
+                        giveup[i] = (t[0] == "u")
+                        inner[i].errback(UncoordinatedWriteError())
         waiting = [i for i in sorted(started) if i not in finished]
         return "%s | %s | %s" % (" ".join(log) or "-", waiting[0] if waiting else "-",
                                  ",".join(map(str, content)) or "-"), log
@@ -127,6 +180,14 @@ def monitor_log(ctx, ops, log):
                               {"ops": ops, "log": log}, "serializer-overlap")
         elif e[0] == "F":
             fin.add(int(e[1:-1]))
+        elif e[0] == "R":
+            j = int(e[1:])
+            if j in fin:
+                ctx.violation("operation %d reported its result and then made a further attempt (it was not finished)" % j,
+                              {"ops": ops, "log": log}, "op-active-after-completion")
+            elif j not in order:
+                ctx.violation("an attempt of operation %d ran before the operation was started" % j,
+                              {"ops": ops, "log": log}, "serializer-overlap")
     if order != sorted(order):
         ctx.violation("operations started out of request order", {"ops": ops, "log": log}, "serializer-order")
     # failure does not block: if every started op has finished, every request made must have started
@@ -405,9 +466,360 @@ def grid_batches(ctx, n):
                 g.close()
 
 
+# ----------------------------------------------------------------------------- (d) collisions with another client
+
+WRITE = "slot_testv_and_readv_and_writev"
+LIT = b"URI:LIT:krugkidfnzsc4"
+
+
+def gen_collision_params(rng, kind, policy):
+    m = rng.randrange(2, 5)
+    ops = []
+    if kind == "file":
+        for j in range(m):
+            ops.append(rng.choice(["modify", "modify", "modify", "modify-fail", "download"]))
+        publishing = [j for j, o in enumerate(ops) if o == "modify"]
+    else:
+        names = []
+        for j in range(m):
+            r = rng.random()
+            if r < 0.5 or not names:
+                nm = "a%d" % rng.randrange(3)
+                ops.append("set:" + nm)
+                names.append(nm)
+            elif r < 0.8:
+                ops.append("delete:" + rng.choice(names))       # possibly already deleted: then it must fail
+            elif r < 0.9:
+                ops.append("delete:nosuch")                     # fails; must not block the rest
+            else:
+                ops.append("list")
+        publishing = [j for j, o in enumerate(ops) if o.startswith("set:")]
+    if not publishing:
+        ops[0] = "modify" if kind == "file" else "set:a0"
+        publishing = [0]
+    # mostly the first operation collides (later ones are then already queued behind it)
+    collide_at = publishing[0] if rng.random() < 0.7 else rng.choice(publishing)
+    return {"kind": kind, "policy": policy, "seed": rng.randrange(1 << 30), "ops": ops, "collide_at": collide_at,
+            "mdmf": rng.random() < 0.3}
+
+
+def collision_scenario(ctx, prm):
+    """Client A requests prm["ops"] back to back on ONE node object; when the share writes of operation
+    `collide_at` are in the network they are held back while client B completes a write of its own to
+    the same file / directory, then released: A's publish fails with UncoordinatedWriteError and
+    modify() goes round its retry loop (the default BackoffAgent's timer runs on the virtual clock).
+    Checked, from the statement only: one at a time in request order, each operation's extent
+    includes all of its attempts; success is reported only once the edit is on the grid; a failed
+    operation does not block; the final contents are the successful edits in request order."""
+    import grid
+    from twisted.internet import defer
+    from twisted.python.failure import Failure
+    from allmydata import uri
+    from allmydata.dirnode import DirectoryNode
+    from allmydata.mutable.filenode import MutableFileNode
+    from allmydata.mutable.publish import MutableData, Publish
+    from allmydata.mutable.servermap import ServermapUpdater
+    from allmydata.mutable.retrieve import Retrieve
+    from allmydata.interfaces import SDMF_VERSION, MDMF_VERSION
+    kind, ops = prm["kind"], prm["ops"]
+    m = len(ops)
+    patched = []
+    with grid.Runtime(seed=prm["seed"], policy=prm["policy"]) as rt:
+        g = grid.Grid(grid.fresh_dir("c13x"), rt, num_servers=5, num_clients=3, k=2, happy=2, n=4)
+        try:
+            A, B, C = g.clients
+            version = MDMF_VERSION if prm["mdmf"] else SDMF_VERSION
+            if kind == "file":
+                first = rt.wait(A.create_mutable_file(MutableData(b"base"), version=version))
+                cap = first.get_uri()
+                hA = A.create_node_from_uri(cap)
+                nodeA = hA
+                hB = B.create_node_from_uri(cap)
+                filecap = cap
+            else:
+                first = rt.wait(A.create_dirnode())
+                cap = first.get_uri()
+                hA = A.create_node_from_uri(cap)
+                rt.wait(hA.set_uri("keep", LIT, LIT))
+                nodeA = hA._node
+                hB = B.create_node_from_uri(cap)
+                filecap = uri.from_string(cap).get_filenode_cap().to_string()
+            si = nodeA.get_storage_index()
+
+            def fresh_reader():
+                n = MutableFileNode(C.storage_broker, C._secret_holder, C.get_encoding_parameters(), C.history)
+                n.init_from_cap(uri.from_string(filecap))
+                return n if kind == "file" else DirectoryNode(n, C.nodemaker, None)
+
+            def read_fresh():
+                r = fresh_reader()
+                if kind == "file":
+                    return rt.wait(r.download_best_version())
+                return sorted(rt.wait(r.list()).keys())
+
+            log = []            # ("S"|"F"|"D", i, ok?) | ("M", i) | ("A", what)
+            cur = [None]
+            snaps = {}
+
+            orig_ser = nodeA._do_serialized
+
+            def do_serialized(cb, *a, **k):
+                i = cur[0]
+
+                def cb2(*a2, **k2):
+                    log.append(("S", i))
+                    d = defer.maybeDeferred(cb, *a2, **k2)
+                    d.addBoth(lambda r: (log.append(("F", i, not isinstance(r, Failure))), r)[1])
+                    return d
+                d = orig_ser(cb2, *a, **k)
+
+                def delivered(r):
+                    ok = not isinstance(r, Failure)
+                    log.append(("D", i, ok))
+                    if ok:
+                        # what is on the servers' disks at the moment the caller is told "done"
+                        snaps[i] = {p: open(p, "rb").read() for (_s, _sh, p) in g.share_files(si)}
+                    return r
+                d.addBoth(delivered)
+                return d
+            nodeA._do_serialized = do_serialized
+            orig_modify = nodeA.modify
+
+            def modify(modifier, backoffer=None):
+                i = cur[0]
+
+                def m2(old, servermap, first_time):
+                    log.append(("M", i))
+                    return modifier(old, servermap, first_time)
+                return orig_modify(m2, backoffer)
+            nodeA.modify = modify
+
+            def patch(cls, name, what):
+                orig = getattr(cls, name)
+
+                def wrapped(self, *a, **k):
+                    if getattr(self, "_node", None) is nodeA:
+                        log.append(("A", what))
+                    return orig(self, *a, **k)
+                setattr(cls, name, wrapped)
+                patched.append((cls, name, orig))
+            patch(ServermapUpdater, "update", "mapupdate")
+            patch(Publish, "publish", "publish")
+            patch(Publish, "update", "publish")
+            patch(Retrieve, "download", "retrieve")
+
+            # --- the requests, back to back
+            ds = []
+            for i, op in enumerate(ops):
+                cur[0] = i
+                if op == "modify":
+                    tok = b"<%d>" % i
+                    ds.append(hA.modify(lambda old, sm, first, tok=tok: old if tok in old else old + tok))
+                elif op == "modify-fail":
+                    def bad(old, sm, first):
+                        raise ValueError("modifier failure")
+                    ds.append(hA.modify(bad))
+                elif op == "download":
+                    ds.append(hA.download_best_version())
+                elif op.startswith("set:"):
+                    ds.append(hA.set_uri(op[4:], LIT, LIT))
+                elif op.startswith("delete:"):
+                    ds.append(hA.delete(op[7:]))
+                else:
+                    ds.append(hA.list())
+            cur[0] = None
+
+            # --- the collision
+            collided = False
+            for _ in range(200000):
+                if ("S", prm["collide_at"]) in log and any(lbl and lbl[1] == WRITE for (lbl, _d) in rt.pending):
+                    collided = True
+                    break
+                if not rt.step():
+                    break
+            if collided:
+                held, rt.pending = rt.pending, []
+                if kind == "file":
+                    rt.wait(hB.modify(lambda old, sm, first: old if b"<B>" in old else old + b"<B>"))
+                else:
+                    rt.wait(hB.set_uri("from-B", LIT, LIT))
+                rt.pending = held + rt.pending
+            ctx.count("collision:%s:%s" % (kind, "yes" if collided else "no"))
+
+            results = []
+            for d in ds:
+                try:
+                    results.append(("ok", rt.wait(d)))
+                except grid.Stuck:
+                    results.append(("stuck", None))
+                except Exception as e:
+                    results.append(("err", type(e).__name__))
+            # anything still going on in the background runs out here (timers: up to 10 virtual minutes)
+            rt.pump(horizon=rt.clock.seconds() + 600.0)
+            for (cls, name, orig) in patched:
+                setattr(cls, name, orig)
+            del patched[:]
+            nodeA._do_serialized = orig_ser
+            nodeA.modify = orig_modify
+
+            shown = [e[0] + ("" if e[0] == "A" else str(e[1])) + ("" if len(e) < 3 else ("o" if e[2] else "f")) if e[0] != "A"
+                     else "A:" + e[1] for e in log]
+            case = {"family": "collision", "params": prm, "log": shown, "results": [(st, v if st != "ok" else None) for st, v in results]}
+
+            # --- (1) one at a time, in request order; every attempt inside the operation's extent
+            pos = {}
+            for p_, e in enumerate(log):
+                if e[0] in "SFD":
+                    pos.setdefault((e[0], e[1]), p_)
+            starts = [e[1] for e in log if e[0] == "S"]
+            if starts != sorted(starts) or len(set(starts)) != len(starts):
+                ctx.violation("operations did not start in request order", case, "serializer-order-real")
+            for j in starts:
+                for i in range(j):
+                    if ("F", i) not in pos or pos[("F", i)] > pos[("S", j)]:
+                        ctx.violation("operation %d started before operation %d finished" % (j, i), case, "serializer-overlap-real")
+                        break
+            for p_, e in enumerate(log):
+                if e[0] == "M":
+                    j = e[1]
+                    if ("F", j) in pos and pos[("F", j)] < p_ or ("D", j) in pos and pos[("D", j)] < p_:
+                        ctx.violation("operation %d reported completion and then ran its modifier again (it was not finished)" % j,
+                                      case, "op-active-after-completion")
+                        break
+                    if any(("F", i) not in pos or pos[("F", i)] > p_ for i in range(j)):
+                        ctx.violation("operation %d ran its modifier before an earlier-requested operation finished" % j,
+                                      case, "serializer-overlap-real")
+                        break
+                elif e[0] == "A":
+                    open_ops = [j for j in starts if pos[("S", j)] < p_ and not (("F", j) in pos and pos[("F", j)] < p_)]
+                    if not open_ops:
+                        ctx.violation("the node ran a %s although every operation started so far had reported completion" % e[1],
+                                      case, "op-active-after-completion")
+                        break
+
+            # --- failure does not block; outcomes follow request order
+            ref_tokens, ref_names = [], {"keep"}
+            expected_ok = []
+            for i, op in enumerate(ops):
+                if op == "modify":
+                    expected_ok.append(True)
+                elif op == "modify-fail":
+                    expected_ok.append(False)
+                elif op.startswith("delete:"):
+                    expected_ok.append(op[7:] in ref_names)
+                else:
+                    expected_ok.append(True)
+                (st, val) = results[i]
+                if st == "stuck":
+                    ctx.violation("operation never completed (blocked)", case, "serializer-blocked-real")
+                    continue
+                if (st == "ok") != expected_ok[i]:
+                    ctx.violation("operation %d (%s) %s, which is not its outcome when the operations run one at a time in request order"
+                                  % (i, op, "succeeded" if st == "ok" else "failed: %s" % val), case,
+                                  "serializer-unexpected-error" if st != "ok" else "serializer-unexpected-success")
+                if st == "ok":
+                    if op == "modify":
+                        ref_tokens.append(b"<%d>" % i)
+                    elif op.startswith("set:"):
+                        ref_names.add(op[4:])
+                    elif op.startswith("delete:"):
+                        ref_names.discard(op[7:])
+                    elif op == "download":
+                        import re
+                        got = re.findall(rb"<\d+>", val)
+                        if got != ref_tokens:
+                            ctx.violation("download_best_version did not see exactly the edits requested before it",
+                                          dict(case, got=repr(val)), "serializer-stale-read")
+                    elif op == "list":
+                        got = sorted(k for k in val.keys() if k != "from-B")
+                        if got != sorted(ref_names):
+                            ctx.violation("list() did not see exactly the edits requested before it", dict(case, got=got),
+                                          "dir-read-not-serialized:list")
+
+            # --- (3) final contents = the successful edits in request order
+            final = read_fresh()
+            if kind == "file":
+                import re
+                if re.findall(rb"<\d+>", final) != ref_tokens:
+                    ctx.violation("final contents differ from the successful edits applied in request order",
+                                  dict(case, got=repr(final), want=[t.decode() for t in ref_tokens]), "serializer-lost-write")
+                ctx.count("collision:B-edit-%s" % ("kept" if b"<B>" in final else "absent"))
+            else:
+                if sorted(k for k in final if k != "from-B") != sorted(ref_names):
+                    ctx.violation("concurrent directory edits through one client lost a change",
+                                  dict(case, got=final, want=sorted(ref_names)), "dir-edit-lost")
+                ctx.count("collision:B-edit-%s" % ("kept" if "from-B" in final else "absent"))
+
+            # --- (2) when an operation reported success its edit was readable by a fresh client at that moment
+            live = {p: open(p, "rb").read() for (_s, _sh, p) in g.share_files(si)}
+            for i in sorted(snaps):
+                op = ops[i]
+                if op in ("download", "list"):
+                    continue
+                for p in live:
+                    if p not in snaps[i]:
+                        os.unlink(p)
+                for p, raw in snaps[i].items():
+                    with open(p, "wb") as fh:
+                        fh.write(raw)
+                try:
+                    seen = read_fresh()
+                except Exception as e:
+                    seen = None
+                    ctx.violation("operation %d (%s) reported success but the file was not readable at that moment: %s"
+                                  % (i, op, type(e).__name__), case, "success-reported-before-edit-readable")
+                    continue
+                good = (b"<%d>" % i in seen) if op == "modify" else (op[4:] in seen) if op.startswith("set:") \
+                    else (op[7:] not in seen)
+                if not good:
+                    ctx.violation("operation %d (%s) reported success but a fresh client reading at that moment does not see its edit"
+                                  % (i, op), dict(case, seen=repr(seen)), "success-reported-before-edit-readable")
+            # --- correspondence: start / further attempt / finish order against the model
+            toks, line_ops = [], ["q"] * m
+            seen_m = set()
+            for e in log:
+                if e[0] == "S":
+                    toks.append("S%d" % e[1])
+                elif e[0] == "F":
+                    toks.append("F%d%s" % (e[1], "o" if e[2] else "f"))
+                elif e[0] == "M":
+                    if e[1] in seen_m:
+                        toks.append("R%d" % e[1])
+                    seen_m.add(e[1])
+            for i in range(m):
+                line_ops += ["r:%d" % i] * max(0, sum(1 for e in log if e == ("M", i)) - 1)
+                fin = [e for e in log if e[0] == "F" and e[1] == i]
+                if fin:
+                    line_ops.append("f:%d:%s" % (i, "o" if fin[0][2] else "f"))
+            mo = ctx.model(["ser " + " ".join(line_ops)])
+            if mo is not None:
+                model_proj = " ".join(t for t in mo[0].split(" | ")[0].split() if t[0] in "SFR")
+                if " ".join(toks) != model_proj:
+                    ctx.disagree("start / further-attempt / finish order of colliding operations", case, " ".join(toks), model_proj)
+            retried = any(t[0] == "R" for t in toks)
+            ctx.case(repr((kind, prm["policy"], prm["seed"], tuple(ops), prm["collide_at"])) if collided else None)
+            ctx.count("collision:%s" % ("retried" if retried else "no-retry"))
+            for op in ops:
+                ctx.count("collision-op:" + op.split(":")[0])
+        finally:
+            for (cls, name, orig) in patched:
+                setattr(cls, name, orig)
+            g.close()
+
+
+def collision_family(ctx, rounds):
+    combos = [(kd, p) for p in ("random", "fifo", "lifo") for kd in ("file", "dir")]
+    for r in range(rounds):
+        kd, policy = combos[r % len(combos)]
+        collision_scenario(ctx, gen_collision_params(ctx.rng, kd, policy))
+
+
 def run(ctx):
     import common
     common.setup_impl_path()
+    if ctx.replay and (ctx.replay.get("case") or {}).get("family") == "collision":
+        collision_scenario(ctx, ctx.replay["case"]["params"])
+        return
     if ctx.replay and ctx.replay.get("case", {}).get("ops"):
         ops = ctx.replay["case"]["ops"]
         text, log = run_schedule_impl(ops)
@@ -429,7 +841,7 @@ def run(ctx):
                 if inprog:
                     overlap = True
                 inprog += 1
-            elif o.startswith("f:"):
+            elif o.startswith("f:") or o.startswith("u:"):
                 inprog = max(0, inprog - 1)
         ctx.case(" ".join(ops) if overlap else None)
         for o in ops:
@@ -439,3 +851,4 @@ def run(ctx):
     ctx.sample({"ops": scheds[0], "impl": impls[0]})
     nodemaker_cases(ctx, ctx.budget(100, 3000))
     grid_batches(ctx, ctx.budget(12, 400))
+    collision_family(ctx, ctx.budget(18, 600))
